@@ -864,8 +864,9 @@ def _same_file_fn(fn, name):
     return None
 
 
-def _expanded_helpers(node, fn, depth=2):
-    """bodies of same-file helpers called from `node`, parameters replaced by the call's arguments"""
+def _expanded_helpers(node, fn, depth=2, detail=False):
+    """bodies of same-file helpers called from `node`, parameters replaced by the call's arguments
+    (detail: [(body, callee, names used by the arguments)])"""
     out = []
     if fn is None or depth == 0:
         return out
@@ -882,14 +883,16 @@ def _expanded_helpers(node, fn, depth=2):
             continue
         params = [binding_name(i["pat"]) for i in callee["sig"]["inputs"] if isinstance(i, dict) and "pat" in i]
         body = callee["body"]
+        used = set()
         if len(params) == len(args):
             for p, a in zip(params, args):
-                if p and _is_simple_init(strip(a), allow_self=True) and ident(strip(a)) != p:
-                    body = _subst(body, p, strip(a))
-        out.append(body)
-        out.extend(_expanded_helpers(callee["body"], callee, depth - 1))
+                a2 = strip(a)
+                if p and a2 is not None and ident(a2) != p and not any(x.get("k") in ("Closure", "Block", "Macro") for x in walk(a2)):
+                    body = _subst(body, p, a2)
+                used |= {ident(x) for x in walk(a) if x.get("k") == "Path" and ident(x)}
+        out.append((body, callee, used) if detail else body)
+        out.extend(_expanded_helpers(callee["body"], callee, depth - 1, detail))
     return out
-
 
 
 def _pat_names(p):
@@ -1014,16 +1017,25 @@ class FragText(str):
             self._n_whole = len(hays)
             try:
                 # only for whole bodies: a fragment looked up in a single expression is a dispatch test
-                helpers = _expanded_helpers(node, fn) if isinstance(node, dict) and node.get("k") in ("Block", "Fn") else []
+                helpers = _expanded_helpers(node, fn, detail=True) if isinstance(node, dict) and node.get("k") in ("Block", "Fn") else []
             except Exception:
                 helpers = []
             if helpers:
                 bh = set(b0)
-                for h in helpers:
+                for h, _c, _u in helpers:
                     bh |= _bound_names(h)
-                hays.append(_Hay([node] + helpers, bh))
+                hays.append(_Hay([node] + [h for h, _c, _u in helpers], bh))
                 if inl is not None:
-                    hays.append(_Hay([inl] + [inline_lets_deep(h) for h in helpers], bh))
+                    hays.append(_Hay([inl] + [inline_lets_deep(h) for h, _c, _u in helpers], bh))
+                # each helper body on its own, with the names visible *there*: its parameters and
+                # locals, and the caller's names that came in through the arguments
+                for h, callee, used in helpers:
+                    bnd = _bound_names(h, callee) | (used & b0)
+                    hays.append(_Hay([h], bnd))
+                    try:
+                        hays.append(_Hay([inline_lets_deep(h)], bnd))
+                    except Exception:
+                        pass
             # nested blocks: a name bound only in a sibling scope is not visible here, so a
             # fragment's use of that name may stand for a renamed local of this scope
             params = _bound_names({"k": "x"}, fn)
@@ -1306,6 +1318,20 @@ def _uses(node, name):
     return n_uses
 
 
+def _writes_name(node, names):
+    for n in walk(node):
+        k = n.get("k")
+        if k == "Assign" and ident(strip(n["left"])) in names:
+            return True
+        if k == "Binary" and n.get("op", "").endswith("=") and n["op"] not in ("==", "!=", "<=", ">=") and ident(strip(n["left"])) in names:
+            return True
+        if k == "Ref" and n.get("mut") and ident(strip(n["e"])) in names:
+            return True
+        if k == "MethodCall" and ident(strip(n["recv"])) in names and n["method"] in _IMPURE_METHODS:
+            return True
+    return False
+
+
 def inline_simple_lets(stmts, multi=False, mut_names=None):
     """statement list with every single-use simple `let name = init;` folded into its use
     (same block, the use not under a loop or closure)"""
@@ -1335,10 +1361,15 @@ def inline_simple_lets(stmts, multi=False, mut_names=None):
                 for n in walk(r):
                     if n.get("k") in ("For", "While", "Loop", "Closure") and _uses(n, name):
                         under = True
+            reads = {ident(x) for x in walk(init) if x.get("k") == "Path" and ident(x)}
             if under:
                 # fine when nothing the initialiser reads can change: only immutable locals
-                reads = {ident(x) for x in walk(init) if x.get("k") == "Path" and ident(x)}
                 if mut_names is None or (reads & mut_names):
+                    continue
+            elif mut_names is not None and (reads & mut_names):
+                # reads a mutable local: only if that local is not written between here and the last use
+                last = max(k for k, r in enumerate(rest) if _uses(r, name))
+                if any(_writes_name(r, reads & mut_names) for r in rest[: last + 1]):
                     continue
             stmts = stmts[:i] + [_subst(r, name, init) for r in rest]
             changed = True
@@ -1634,4 +1665,52 @@ def struct_pat_bindings(pat):
     if pat.get("k") == "PStruct":
         for f in pat.get("fields", []):
             out[f["name"]] = binding_name(f["pat"])
+    return out
+
+
+def value_cases(e):
+    """the values an expression can take with the conditions selecting each:
+    `if c { a } else { b }` -> [(a, [c]), (b, ['!c'])]; nested ifs / matches / blocks are followed"""
+    out = []
+
+    def t(n):
+        return unparse(n).replace(" ", "")
+
+    def rec(n, conds):
+        n = strip(n) if isinstance(n, dict) else n
+        if n is None:
+            return
+        k = n.get("k")
+        if k == "Block":
+            st = n["stmts"]
+            if st and st[-1].get("k") == "ExprStmt" and not st[-1].get("semi", True):
+                rec(st[-1]["e"], conds)
+            else:
+                out.append((n, conds))
+        elif k == "If" and n.get("else") is not None:
+            c = t(strip(n["cond"]))
+            rec(n["then"], conds + [c])
+            rec(n["else"], conds + ["!" + c])
+        elif k == "Match":
+            for arm in n["arms"]:
+                rec(arm["body"], conds + ["match %s:%s" % (t(n["e"]), t(arm["pat"]))])
+        else:
+            out.append((n, conds))
+
+    rec(e, [])
+    return out
+
+
+def guarded_writes(body, prefix):
+    """every assignment to a place whose text starts with `prefix`, one entry per value case:
+    [(left text, value node, [conditions outermost first], assign node)] - `if c { x = a } else { x = b }`
+    and `x = if c { a } else { b }` give the same entries"""
+    out = []
+    for a in find(body, "Assign"):
+        left = unparse(a["left"]).replace(" ", "")
+        if not left.startswith(prefix):
+            continue
+        outer = enclosing_conds(body, a) or []
+        for leaf, cs in value_cases(a["right"]):
+            out.append((left, leaf, outer + cs, a))
     return out
